@@ -9,15 +9,28 @@ CONFIG = {
     "sources": ["VProps/C09.lean", "VModel/Auth.lean", "VModel/Event.lean", "VModel/GoJson.lean", "VModel/AuthNeeded.lean",
                 "VProofs/AuthNeeded.lean", "VProofs/AuthNeededProviders.lean"],
     "theorems": ["V.C09.update_eq_freshOf", "V.C09.inv_freshOf", "V.C09.verdicts_history_independent", "V.C09.allowedFresh_eq", "V.C09.freshOf_congr",
-                 "V.C09.verdict_needs_only_needed", "V.C09.verdict_needs_only_needed_exact", "V.C09.insertion_order_irrelevant", "V.C09.unrelated_state_irrelevant", "V.C09.unrelated_state_added", "V.C09.add_auth_events_sufficient", "V.C09.ofEvents_sameRoom"],
+                 "V.C09.verdict_needs_only_needed", "V.C09.verdict_needs_only_needed_exact", "V.C09.insertion_order_irrelevant", "V.C09.unrelated_state_irrelevant", "V.C09.unrelated_state_added", "V.C09.add_auth_events_sufficient", "V.C09.ofEvents_sameRoom",
+                 "V.C09.allowedFresh_eq_noValid", "V.C09.check_eq_allowed", "V.C09.reused_checker_eq_allowed", "V.C09.sameEvent_eq"],
     "rule": "ctx: one reused allowerContext (hook) fed 3-12 steps: update to one of 1-3 providers (different create / power-levels / "
             "join-rules events, unparseable variants, missing create), AddEvent+update as state resolution does, checks of restricted "
-            "joins with/without authoriser, power-level and join-rule events, messages; the spec stream is the verdict of a FRESH check "
-            "against the current provider; non-trivial = a sequence with at least two checks; ctx.needed: the random room states of area auth "
+            "joins with/without authoriser, power-level and join-rule events, messages; foreign pattern: rounds of Clear / AddEvent / "
+            "update / check in which some rounds also add an event of ANOTHER room, every check made through the reused checker (a-step) "
+            "and by the standalone Allowed on the same provider object (f-step); the spec stream is the verdict of the standalone "
+            "`Allowed` (Valid() gate included) on a FRESH provider holding the events the provider holds now; non-trivial = a sequence with at least two checks; ctx.needed: the random room states of area auth "
             "(every event class, restricted joins, third-party invites with real signatures) with unrelated same-room state added: the REAL "
             "Allowed on the full provider, on the reversed + extended provider and on the provider restricted to StateNeededForAuth(e).Tuples(); "
-            "spec stream = the model's verdict on the restricted provider, three times; auth: as C07",
+            "spec stream = the model's verdict on the restricted provider, three times; the same with member events under test whose "
+            "content spells membership / join_authorised_via_users_server in another letter case (public and restricted rooms, all versions); "
+            "ctx.addauth: the REAL EventBuilder.AddAuthEvents (StateNeededForProtoEvent + AuthEventReferences + the create-stripping branch of "
+            "version 12) selects the references for a new event shaped like the event under test: Allowed on the full provider vs on exactly the "
+            "selected events, and the reference set vs the model's selectNeeded; ctx.seq also: same-ID pattern (two different power-levels / "
+            "join-rules events carrying ONE event ID swapped between refreshes) and the toggle pattern (present / absent / present again); "
+            "auth: as C07",
     "nontrivial": lambda op, impl: impl.count(",") >= 1 or "\t" in op,
     "trusted": COMMON_TRUSTED + ["hook export_verif.go exposes newAllowerContext/update/allowed unchanged"],
-    "assumptions": ["events are identified by their event ID in the model (pointer identity in Go); distinct generated events have distinct IDs"],
+    "assumptions": ["the model compares cached events structurally (version, event ID and the whole JSON value; theorem sameEvent_eq) where Go compares "
+                    "pointers: observationally the same, since a re-parse of an equal event gives the same content (until round 4 the model "
+                    "compared IDs and the theorems assumed IDs identify events - false for the trusted constructors, seeded change C09-r4m1)",
+                    "ctx.addauth: the real EventBuilder.AddAuthEvents is compared on generated events for which it succeeds (it refuses member "
+                    "contents StateNeededForProtoEvent cannot decode); references are compared as a set; auth events from different rooms skipped"],
 }
